@@ -7,13 +7,16 @@ RULE = ("random workflows (1-5 stages, every join type, scripted task outcomes i
         "delivery schedules (fifo | random order | random + redelivery of unacknowledged messages | arbitrary incl. early re-polls), "
         "every op is applied to the REAL engine and the Lean model, the state line after every op is compared; "
         "a trace is distinct by (spec, op list) and non-trivial when it has >= 8 ops and a non-FIFO choice or an injected op;"
-        " PLUS the synthetic-stage family (harness/synth_suites.py, IMPLEMENTATION-ONLY: monitors on real-engine traces, no model line): workflows of 1-3 top-level stages (single | chain | two parallel roots | fan-in), some with 1-2 pre-declared STAGE_BEFORE and / or STAGE_AFTER children (children 1 task, parents 0-2; task results succeed | terminal | fail-continue | poll then succeed | suspend), stored through the real store, driven by fifo | random | redelivery | starve | arbitrary schedules, cancel before a random step or inside the parent-waits-for-child window, signals for suspended stages, recovery sweeps injected into healthy runs, and (every fourth unit) kill after k commits + restart + sweep(s) + late redelivery + drain; judged by smon_c05 (children included) and the transition-table monitor")
+        " PLUS the synthetic-stage family (harness/synth_suites.py, IMPLEMENTATION-ONLY: monitors on real-engine traces, no model line): workflows of 1-3 top-level stages (single | chain | two parallel roots | fan-in), some with 1-2 pre-declared STAGE_BEFORE and / or STAGE_AFTER children (children 1 task, parents 0-2; task results succeed | terminal | fail-continue | poll then succeed | suspend), stored through the real store, driven by fifo | random | redelivery | starve | arbitrary schedules, cancel before a random step or inside the parent-waits-for-child window, signals for suspended stages, recovery sweeps injected into healthy runs, and (every fourth unit) kill after k commits + restart + sweep(s) + late redelivery + drain; judged by smon_c05 (children included) and the transition-table monitor; "
+        "PLUS the pause / resume dimension (harness/synth_suites.py, family 'pause', IMPLEMENTATION-ONLY: monitors on real-engine traces, no model line; signatures prefixed pause:): plain workflows (engine_suites.gen_spec w0, sometimes one suspending task) AND synthetic-stage ones; operator ops p = store.pause (only while the workflow is RUNNING), u = Orchestrator.unpause, r = store.resume injected at random steps into fifo | random | redelivery | starve schedules, combined with a cancel (often issued together with the un-pause, or while paused), signals and a second pause; every third unit is the directed 'parked' member (2-3 parallel stages all parked PAUSED, then un-pause or cancel + un-pause, random order); in 20 % of the runs nobody un-pauses, otherwise the operator keeps at it until nothing is paused (settle_pause: unpause, drain, store.resume if the row is still PAUSED with nothing parked); judged by smon_c05 (after un-pause + drain the workflow is final or explicitly waiting; a workflow / stage still PAUSED because nobody un-paused it counts as explicitly waiting; still PAUSED after the un-pause idiom = still-paused-after-unpause) and the transition-table monitor")
 ASSUMPTIONS = ["delays are abstracted: budget-respecting schedules deliver a delayed message only when no immediate one is pending",
                "per-workflow circuit breaker disabled in the harness (volatile state outside the model)",
+               "pause / resume dimension: 'un-paused' means the operator idiom of the repo's tests and demos (Orchestrator.unpause, then store.resume when the row is still PAUSED with nothing parked), repeated up to three times at quiescence; store.pause is only issued while the workflow row is RUNNING (store.pause() itself writes PAUSED over any status, also a final one: operator misuse, not generated); a message that raises on every delivery is dead-lettered after max_attempts deliveries (real check_and_move_expired) and the first such loss names the cause of what follows (`…@<msg>-dead-lettered:<exception>-while-workflow-<status>`)",
                "synthetic-stage family: 'explicitly waiting' = some stage, child included, SUSPENDED / PAUSED; 'every top-level stage continuable' is checked on top-level stages, 'no stage left running' on children too; a terminal failure absorbed by continuePipelineOnFailure of the stage or its parent does not have to fail the workflow",
                "synthetic-stage family: the nine defects it found on the unchanged tree (S1-S9) were repaired (F44-F51); its pending gate (synth_suites.PENDING) is empty, every synth: signature is reported"]
 TRUSTED_BASE = ["Engine model (lean/Stab/Model/Engine.lean) is hand-written; tied to handlers/* by the trace differential on generated schedules only",
                 "not modelled: synthetic stages (and ContinueParentStage), mutex/deferred choice, OR-split conditions, pause/resume, timeouts, PostgreSQL backend",
+                "pause / resume (store.pause, PauseTask, Orchestrator.unpause / ResumeStage, store.resume) is covered by an IMPLEMENTATION-ONLY family as well (synth_suites family 'pause'): monitors on real-engine traces, no theorem, no model line",
                 "synthetic before/after stages are covered by an IMPLEMENTATION-ONLY family (harness/synth_suites.py): the property is stated by monitors on traces of the real engine; "
                 "no theorem and no model correspondence speaks about them; trusted there: the generator, the monitors' reading of the property (ASSUMPTIONS), the queue's dead-letter rule as replayed by the harness (op q = the real check_and_move_expired after max_attempts deliveries)"]
 
@@ -22,6 +25,8 @@ def run(ctx) -> None:
     engine_suites.run_for(ctx, "C05")
     # synthetic before/after stages: implementation-only family (monitors on real-engine traces, no model line)
     synth_suites.run_for(ctx, "C05")
+    # pause / resume dimension (plain and synthetic-stage workflows): implementation-only as well
+    synth_suites.run_for(ctx, "C05", family="pause")
 
 
 def search(ctx) -> None:
